@@ -783,6 +783,9 @@ func runC16(c *Ctx) {
 				if h.doneThen {
 					problems = append(problems, fmt.Sprintf("callback %s started after the monitor's Done() closed", h.what))
 				}
+				if h.what == "hijack" {
+					problems = append(problems, "a handler created from a builder changed when the builder was configured again afterwards")
+				}
 				if len(h.ids) == 1 && h.ids[0] == -1 {
 					problems = append(problems, "callback "+h.what+" received a nil object")
 				}
